@@ -379,7 +379,7 @@ pub fn gen_string(t: &mut Tape, p: &Gp) -> String {
         let unit = ["a", "é", "日"][t.below(3)];
         return unit.repeat((65536 + t.below(3000)) / unit.len());
     }
-    if p.depth == 0 && t.chance(6) {
+    if p.depth == 0 && !light() && t.chance(6) {
         // size boundaries: byte lengths around 2^7, 2^8, 2^12, 2^16 (a repeated 1..4-byte unit,
         // so the whole string costs three tape bytes)
         let unit = ["a", "é", "日", "😀", "ab"][t.below(5)];
@@ -669,7 +669,7 @@ impl Elem for String {
 
 pub fn gen_vec<T>(t: &mut Tape, p: &Gp, mut f: impl FnMut(&mut Tape, &Gp) -> T) -> Vec<T> {
     let (small, big) = p.max_len();
-    if !p.small && p.depth == 0 && (t.chance(4) || p.mega) {
+    if !p.small && p.depth == 0 && !light() && (t.chance(4) || p.mega) {
         // element-count boundaries: 255/256/257/1000 tiny elements (mega: 70 000)
         let n = if p.mega { 70_000 + t.below(1000) } else { [255usize, 256, 257, 1000][t.below(4)] };
         let q = Gp { small: true, depth: p.depth + 2, mega: false, ..p.clone() };
